@@ -117,6 +117,16 @@ func runC17(c *core.Ctx) {
 			bases = append(bases, base{s2.Chunks(), f.Name})
 		}
 	}
+	// the small-scope type systems, one definition (or one site) per chunk
+	for _, ch := range schemaSmallScopeChunks() {
+		var keep []string
+		for _, x := range ch {
+			if strings.TrimSpace(x) != "" {
+				keep = append(keep, x)
+			}
+		}
+		bases = append(bases, base{keep, "small-scope"})
+	}
 	perms := make([][][]string, len(bases)) // per base: list of source lists
 	for i, b := range bases {
 		perms[i] = append(perms[i], []string{strings.Join(b.chunks, "\n")})
@@ -178,7 +188,9 @@ func runC17(c *core.Ctx) {
 	c.Sample(map[string]interface{}{"sources": perms[0][1]})
 }
 
-func itoa(i int) string { return strings.TrimSpace(strings.Replace(strings.Repeat(" ", 0)+fmtInt(i), " ", "", -1)) }
+func itoa(i int) string {
+	return strings.TrimSpace(strings.Replace(strings.Repeat(" ", 0)+fmtInt(i), " ", "", -1))
+}
 func fmtInt(i int) string {
 	if i == 0 {
 		return "0"
